@@ -356,26 +356,40 @@ def parseNet (c : Cfg) (url scheme rem0 : Str) (dp : Nat) : Except PyExc URLInfo
                                     | none => dp),
                       resource := some resource }
 
+/-- the scheme with its default port, if it is a key of `RELATIVE_SCHEME_DEFAULT_PORTS` -/
+def netScheme? (s : Option Str) : Option (Str × Nat) :=
+  match s with
+  | none => none
+  | some x =>
+    match defaultPort? x with
+    | none => none
+    | some dp => some (x, dp)
+
+/-- the scheme decisions at the head of `parse`: (scheme, remaining), for a stripped, C0-free text -/
+def schemeSplit (c : Cfg) (url : Str) : Except PyExc (Option Str × Str) :=
+  let r := partition1 58 url
+  if r.1.isEmpty then .error .ValueError
+  else
+    let scheme1 := pyLower c r.1
+    let ds := truthy c.defaultScheme
+    if !r.2.1 && !ds then .error .ValueError
+    else
+      -- (scheme, remaining) after the first `if`
+      let s1 : Option Str × Str := if !r.2.1 then (c.defaultScheme, url) else (some scheme1, r.2.2)
+      if (ds && (s1.1.getD []).contains 46) || s1.1 == some sLocalhost
+      then .ok (c.defaultScheme, (s1.1.getD []) ++ [58] ++ s1.2) else .ok s1
+
 /-- `URLInfo.parse(url, default_scheme, encoding)` -/
 def parse (c : Cfg) (url0 : Str) : Except PyExc URLInfo :=
   let url := strip url0
   if url.any (· ≤ 0x1f) then .error .ValueError
   else
-    let r := partition1 58 url
-    if r.1.isEmpty then .error .ValueError
-    else
-      let scheme1 := pyLower c r.1
-      let ds := truthy c.defaultScheme
-      if !r.2.1 && !ds then .error .ValueError
-      else
-        -- (scheme, remaining) after the first `if`
-        let s1 : Option Str × Str := if !r.2.1 then (c.defaultScheme, url) else (some scheme1, r.2.2)
-        let s2 : Option Str × Str :=
-          if (ds && (s1.1.getD []).contains 46) || s1.1 == some sLocalhost
-          then (c.defaultScheme, (s1.1.getD []) ++ [58] ++ s1.2) else s1
-        match s2.1.bind (fun s => (defaultPort? s).map (fun dp => (s, dp))) with
-        | none => .ok { raw := url, scheme := s2.1, path := some s2.2 }
-        | some (s, dp) => parseNet c url s s2.2 dp
+    match schemeSplit c url with
+    | .error e => .error e
+    | .ok s2 =>
+      match netScheme? s2.1 with
+      | none => .ok { raw := url, scheme := s2.1, path := some s2.2 }
+      | some (s, dp) => parseNet c url s s2.2 dp
 
 /-! ### accessors -/
 
@@ -387,7 +401,7 @@ def URLInfo.isIPv6 (i : URLInfo) : Option Bool :=
 
 /-- the `url` property -/
 def URLInfo.url (i : URLInfo) : Except PyExc Str :=
-  match i.scheme.bind (fun s => (defaultPort? s).map (fun dp => (s, dp))) with
+  match netScheme? i.scheme with
   | none => .ok i.raw
   | some (sch, dp) =>
     let un := i.username.getD []
@@ -410,15 +424,15 @@ def URLInfo.url (i : URLInfo) : Except PyExc Str :=
 
 /-- `is_port_default()` -/
 def URLInfo.isPortDefault (i : URLInfo) : Option Bool :=
-  match i.scheme.bind defaultPort? with
+  match netScheme? i.scheme with
   | none => none
-  | some dp => some (some dp == i.port)
+  | some (_, dp) => some (some dp == i.port)
 
 /-- the `hostname_with_port` property (with its two `assert`s) -/
 def URLInfo.hostnameWithPort (i : URLInfo) : Except PyExc Str :=
-  match i.scheme.bind defaultPort? with
+  match netScheme? i.scheme with
   | none => .ok []
-  | some dp =>
+  | some (_, dp) =>
     let hn := i.hostname.getD []
     if hn.contains 91 || hn.contains 93 then .error .AssertionError
     else
